@@ -105,6 +105,10 @@ from contracts import c10_options  # noqa: E402
 
 # the context-wide policy reaches the hasher through _CryptConfig._init_options (a later item for a slot replaces the earlier one)
 CONTRACTS += [c for c in c10_options.CONTRACTS if c.id.endswith(("[0]", "[1]", "[2]"))]
+from contracts import c04_policy as _pol  # noqa: E402
+
+# ... and a category-wide wildcard option (admin__all__truncate_error) must count as an option of that category
+CONTRACTS += [c for c in _pol.CONTRACTS if c.id.startswith("get_scheme_options_with_flag")]
 from contracts import bigcrypt as _big  # noqa: E402
 
 # formats without a limit depend on every byte: every 8-byte block enters bigcrypt's digest chain / bsdi_crypt's key
